@@ -163,6 +163,7 @@ def main(argv):
     ctx = Ctx(prop, a.tier, seed, jobs)
     from . import modstate
     modstate.baseline()                 # the library's shared constants as they are right after import
+    modstate.snapshot()                 # ... and the import-time content of every module-level variable
 
     if a.replay:
         return do_replay(mod, prop, a.replay)
@@ -251,6 +252,7 @@ def do_replay(mod, prop, path):
         else:
             from . import modstate
             modstate.baseline()
+            modstate.snapshot()
             mod.replay(body['case'], st)
             modstate.report_constants(st, body['case'], 'replay')
     except HarnessError as e:
